@@ -17,8 +17,23 @@ Keys contain `,` `"` CR NUL TAB spaces and UTF-8 / invalid UTF-8 (from the log l
 extraction expression).  Order-sensitive accumulators (reduce) are compared only with one reader, one
 worker and files in sequence (FIFO theorem).  A timing-controlled run reproduces the spark truncation
 finding (F24).
+
+Three scenario classes go through the layouts x tuning x GOMAXPROCS matrix:
+  random  small corpora, keys with `,` `"` CR NUL ...; half of them PHASED (gen_phases: the keys of an earlier phase
+          stop recurring before later phases bring new sub-keys / columns);
+  phase   make_phase_scenario: bars / table / heatmap / spark, disjoint key sets per phase, every phase with NEW
+          sub-keys behind (in front of, between) all earlier ones; mostly plain names, so that the final
+          --snapshot frame can be READ BACK (snap_check) and compared cell by cell with the reference and the CSV;
+  late    make_late_scenario / check_late: LATE SAMPLING.  130k-1.5M lines, 10k-200k distinct keys, --batch 20000 /
+          50000 and 12-32 workers (5 + workers batches are counted as read before any of them is sampled), so that
+          100 ms render ticks fall between "last line read" and "last batch sampled"; also a SLOW STDIN WRITER
+          (pace_plan / run_cli_paced: pieces with pauses > 100 ms, final burst or trickle).  Every command line is
+          run several times; the final frame is compared with the CSV export of the same command line, with an
+          independent aggregation (late_reference) and with the other runs.
+Snapshot texts of runs that may have seen a render tick are compared with runs of spaces collapsed (squash): the
+padding of the final frame depends on intermediate frames (F25, layout_memory_timing reproduces it on purpose).
 """
-import gzip, os, re, shutil, subprocess, sys, time
+import gzip, os, re, shutil, subprocess, sys, threading, time
 sys.path.insert(0, os.path.dirname(__file__))
 from common import build_rare, Rand
 
@@ -72,6 +87,35 @@ def gen_key(rnd, pool):
     return b"".join(rnd.pick(KEY_ATOMS) for _ in range(1 + rnd.intn(3)))
 
 
+AFTER = [b"z", b"~", b"\xff", b"y", b"zz"]      # prefixes that put a new sub-key behind the ones seen so far
+BEFORE = [b"!", b"0", b" ", b"+"]               # ... or in front of them
+
+
+def gen_phases(rnd, pool, subs):
+    """half of the corpora are PHASED: the keys of an earlier phase stop recurring before the later phases bring
+    new sub-keys / columns (behind, in front of, or between the old ones).  Returns [(pool, subs, weight)]."""
+    phases = [(pool, subs, 1 + rnd.intn(3))]
+    if rnd.intn(2) == 0:
+        return phases
+    for p in range(1 + rnd.intn(2)):
+        letters = [[b"d", b"e", b"f"], [b"g", b"h", b"i"]][p]
+        npool = [gen_key(rnd, letters) for _ in range(1 + rnd.intn(4))]
+        if rnd.intn(3) == 0:
+            npool.append(rnd.pick(pool))        # one old key keeps recurring
+        mode = rnd.intn(4)
+        fresh = lambda pre: rnd.pick(pre) + gen_key(rnd, [b"x", b"y", b"1"])
+        if mode == 0:
+            nsubs = [fresh(AFTER) for _ in range(1 + rnd.intn(2))]
+        elif mode == 1:
+            nsubs = [fresh(BEFORE) for _ in range(1 + rnd.intn(2))]
+        elif mode == 2:
+            nsubs = [fresh(AFTER), gen_key(rnd, [b"x", b"y", b"10", b"9"]), fresh(BEFORE)]
+        else:
+            nsubs = [rnd.pick(phases[-1][1]), fresh(AFTER)]
+        phases.append((npool, nsubs, 1 + rnd.intn(3)))
+    return phases
+
+
 def gen_lines(rnd, kind):
     """lines `key|sub|num` (no LF, no `|` inside key and sub); some lines do not match, some are ignored,
     some carry a number that is not an int64."""
@@ -82,8 +126,18 @@ def gen_lines(rnd, kind):
     n = rnd.pick([0, 1, 2, 5, 12, 40, 120]) if rnd.intn(6) else rnd.pick([300, 1500])
     bad = rnd.intn(5) == 0          # this corpus has numbers that do not parse
     nomatch = rnd.intn(3) == 0
+    phases = gen_phases(rnd, pool, subs)
+    total = sum(w for _, _, w in phases)
+    ends, acc = [], 0
+    for _, _, w in phases:
+        acc += w
+        ends.append(n * acc // total)
     lines = []
-    for _ in range(n):
+    for i in range(n):
+        ph = 0
+        while i >= ends[ph]:
+            ph += 1
+        pool, subs = phases[ph][0], phases[ph][1]
         k, s = rnd.pick(pool), rnd.pick(subs)
         if kind == "reduce":        # keep the group / accumulator arithmetic inside the modelled fragment
             k, s = k.replace(NUL, b"_"), s.replace(NUL, b"_")
@@ -206,6 +260,192 @@ def make_scenario(rnd, kind):
         sc.sort = rnd.intn(2) == 0
         sc.extra = ["--sort", "{n}"] if sc.sort else []
     return sc
+
+
+def shuffled(rnd, xs):
+    xs = list(xs)
+    for i in range(len(xs) - 1, 0, -1):
+        j = rnd.intn(i + 1)
+        xs[i], xs[j] = xs[j], xs[i]
+    return xs
+
+
+def make_phase_scenario(rnd, kind):
+    """class (b): keys that STOP RECURRING before new sub-keys / columns appear (bars, table, heatmap, spark).
+    The key names are dealt to 2-3 phases (so old and new keys interleave in name order); every phase brings new
+    sub-keys that sort behind all earlier ones (and sometimes in front / in between); the keys of an earlier
+    phase are never sampled again (except one `carry` key in a third of the scenarios).  Mostly plain
+    alphanumeric names, so that the snapshot text can be read back and compared cell by cell."""
+    sc = Scenario()
+    sc.kind, sc.cls = kind, "phase"
+    plain = rnd.intn(4) != 0
+    deco = (lambda b: b) if plain else (lambda b: b + rnd.pick([b",", b'"', b" x", b"\xc3\xa9", b"\r", b"'"]))
+    nph = 2 + rnd.intn(2)
+    names = shuffled(rnd, [deco(b"k%02d" % i) for i in range(nph + rnd.intn(9))])
+    keysets = [names[p::nph] for p in range(nph)]
+    carry = names[0] if rnd.intn(3) == 0 else None
+    subsets, seen = [], []
+    for p in range(nph):
+        mode = 0 if p == 0 else rnd.pick([1, 1, 1, 2, 3, 4])
+        new = []
+        for j in range(1 + rnd.intn(3)):
+            if mode == 0:
+                nm = b"m%d" % (2 * j + 2)
+            elif mode in (1, 4):
+                nm = b"s%d%d" % (p, j)              # behind everything so far (m.. < s1. < s2.)
+            elif mode == 2:
+                nm = b"b%d%d" % (9 - p, j)          # in front of everything so far
+            else:
+                nm = b"m%d%d" % (2 * j + 2, 4 + p)  # in between (bytewise: m2 < m25 < m4)
+            new.append(deco(nm))
+        if mode == 4:
+            new.append(deco(b"b%d9" % (9 - p)))      # behind AND in front
+        subsets.append(new)
+    lines = []
+    for p in range(nph):
+        for _ in range(rnd.pick([3, 8, 20, 60])):
+            k = rnd.pick(keysets[p])
+            if carry is not None and rnd.intn(4) == 0:
+                k = carry
+            s = rnd.pick(subsets[p]) if (not seen or rnd.intn(4)) else rnd.pick(seen)
+            num = rnd.pick([b"1", b"2", b"3", b"5", b"7", b"9", b"4", b"-2", b"0"])
+            lines.append(k + b"|" + s + b"|" + num)
+        seen += subsets[p]
+    sc.lines = lines
+    sc.use_dissect = rnd.intn(3) == 0
+    sc.ignore = rnd.intn(4) == 0
+    sc.ordered = False
+    sc.ncols = None
+    g = [[("g", 1)], [("g", 2)]]
+    if kind != "bars" and rnd.intn(2):
+        g.reverse()
+    sc.exprs = g + ([[("g", 3)]] if rnd.intn(3) else [])
+    if kind == "bars":
+        sc.extra = rnd.pick([[], ["--stacked"], ["--sort", "text"]])
+    elif kind == "spark":
+        sc.extra = []
+        if rnd.intn(2):
+            sc.ncols = rnd.pick([1, 2, 3, 5])
+            sc.extra = ["--sort-cols", "text", "--cols", str(sc.ncols)]
+    elif kind == "table":
+        sc.extra = rnd.pick([[], ["--sort-rows", "text"], ["-x"], ["--sort-cols", "numeric", "--cols", "2"], ["--rows", "3"]])
+    else:
+        sc.extra = rnd.pick([[], ["--rows", "3"]])
+    return sc
+
+
+LATE_SIZES = {          # kind: (lines, distinct keys) for quick / thorough; measured on a 16 core box, see check_late
+    "histo":   ([(300000, 100000)], [(300000, 150000), (1500000, 200000)]),
+    "table":   ([(260000, 80000)], [(260000, 80000), (500000, 120000)]),
+    "heatmap": ([(100000, 10000)], [(200000, 30000), (400000, 60000)]),
+    "spark":   ([(260000, 80000)], [(260000, 80000), (500000, 120000)]),
+    "bars":    ([(300000, 10000)], [(300000, 20000), (400000, 40000)]),
+    "reduce":  ([(130000, 10000)], [(130000, 10000), (250000, 40000)]),
+    "analyze": ([(150000, 1)], [(400000, 1), (1500000, 1)]),
+}
+LATE_ACCS = [("t2", "{sumi {.} {3}}", 0), ("n2", "{sumi {.} 1}", 1), ("m2", "{maxi {.} {3}}", 2), ("t3", "{sumi {.} {3}}", 0), ("n3", "{sumi {.} 1}", 1)]
+
+
+def make_late_scenario(rnd, kind, size):
+    """class (a), LATE SAMPLING: a big corpus with very many distinct keys, read with big batches by many workers, so
+    that the last lines are READ (counted by the extractor) long before they are SAMPLED by the aggregator, and
+    several 100 ms render ticks fall into that window.  The last tenth of the lines uses keys and sub-keys that
+    did not occur before (a snapshot taken early lacks whole groups / columns).  Plain names `k<i>`, `s<j>`,
+    `t<j>`; a quarter of the lines hits a small set of hot keys so that the top rows have distinct counts.
+    The corpus is a closed-form function of (n, K, S, a, hot): see `recipe`."""
+    sc = Scenario()
+    sc.kind, sc.cls = kind, "late"
+    n, K = size
+    S = 3 + rnd.intn(5)
+    a = rnd.pick([7919, 104729, 15485863, 32452843])
+    hot = rnd.pick([17, 40, 90])
+    n = n - rnd.intn(n // 20)
+    tail = n - n // 10
+    sc.with_inc = rnd.intn(2) == 0
+    ki = [((i * a) % K if i & 3 else (i * i) % hot) if i < tail else K + (i * a) % (K // 8 + 1) for i in range(n)]
+    si = [(i * 31 + i // 977) % S if i < tail else S + (i // 5) % 2 for i in range(n)]
+    ni = [i % 7 for i in range(n)]
+    sc.triples = (ki, si, ni)
+    sc.subnames = [b"s%d" % j for j in range(S)] + [b"t0", b"t1"]
+    sn = sc.subnames
+    sc.lines = [b"k%d|%s|%d" % (k, sn[s], v) for k, s, v in zip(ki, si, ni)]
+    sc.recipe = ("n=%d;K=%d;S=%d;a=%d;hot=%d;tail=n-n//10;sn=[b's%%d'%%j for j in range(S)]+[b't0',b't1'];"
+                 "open('in.log','wb').write(b''.join(b'k%%d|%%s|%%d\\n'%%(((i*a)%%K if i&3 else (i*i)%%hot) if i<tail else K+(i*a)%%(K//8+1),"
+                 "sn[(i*31+i//977)%%S if i<tail else S+(i//5)%%2],i%%7) for i in range(n)))") % (n, K, S, a, hot)
+    sc.use_dissect = rnd.intn(3) == 0
+    sc.ignore = False
+    sc.ordered = False
+    sc.ncols = None
+    inc = [[("g", 3)]] if sc.with_inc else []
+    if kind == "histo":
+        sc.exprs = [[("g", 1)]] + inc
+        sc.extra = ["-n", str(rnd.pick([12, 30]))] + rnd.pick([[], ["-x"]])
+    elif kind in ("table", "heatmap", "spark"):
+        sc.exprs = [[("g", 2)], [("g", 1)]] + inc       # few columns (sub-keys), very many rows (keys)
+        sc.extra = ["--rows", str(rnd.pick([10, 25]))]
+    elif kind == "bars":
+        sc.exprs = [[("g", 1)], [("g", 2)]] + inc
+        sc.extra = ["--stacked"]                        # one display line per key
+    elif kind == "analyze":
+        sc.exprs = [[("g", 3)]]
+        sc.extra = rnd.pick([[], ["-x"]])
+    elif kind == "reduce":
+        sc.exprs = None
+        sc.ngroups = 1
+        sc.sort = rnd.intn(2) == 0
+        sc.extra = []
+        for name, expr, _ in LATE_ACCS:         # several accumulators: sampling is slow relative to reading
+            sc.extra += ["-a", name + "=" + expr]
+        sc.extra += ["--sort", "{n}"] if sc.sort else []
+    return sc
+
+
+def late_reference(sc):
+    """the independent sequential aggregation of a late scenario, straight from the integer triples (the general
+    `samples_of` + `py_rows` pair does the same thing in seconds instead of a fraction of one; every run
+    cross-checks the two on small corpora of the same shape).  Returns (rows, number of samples)."""
+    ki, si, ni = sc.triples
+    kind, sn = sc.kind, sc.subnames
+    num = lambda v: b"%d" % v
+    if kind == "analyze":
+        return None, len(ki)
+    if kind == "histo":
+        d = {}
+        if sc.with_inc:
+            for k, v in zip(ki, ni):
+                d[k] = d.get(k, 0) + v
+        else:
+            for k in ki:
+                d[k] = d.get(k, 0) + 1
+        rows = sorted(((b"k%d" % k, v) for k, v in d.items()), key=lambda kv: (-kv[1], kv[0]))
+        return [[b"group", b"value"]] + [[k, num(v)] for k, v in rows], len(ki)
+    if kind == "reduce":
+        d = {}
+        for k, v in zip(ki, ni):
+            r = d.get(k)
+            if r is None:
+                d[k] = [v, 1, v]
+            else:
+                r[0] += v
+                r[1] += 1
+                if v > r[2]:
+                    r[2] = v
+        named = [(b"k%d" % k, r) for k, r in d.items()]
+        named.sort(key=(lambda kr: (num(kr[1][1]), kr[0])) if sc.sort else (lambda kr: kr[0]))
+        more = [i for _, _, i in LATE_ACCS]
+        return [[b"g0", b"total", b"n", b"mx"] + [a.encode() for a, _, _ in LATE_ACCS]] + \
+               [[k, num(r[0]), num(r[1]), num(r[2])] + [num(r[i]) for i in more] for k, r in named], len(ki)
+    S = len(sn)
+    d = {}
+    for k, s, v in zip(ki, si, ni if sc.with_inc else [1] * len(ki)):
+        r = d.get(k)
+        if r is None:
+            r = d[k] = [0] * S
+        r[s] += v
+    used = sorted({s for s in si}, key=lambda s: sn[s])
+    named = sorted((b"k%d" % k, r) for k, r in d.items())
+    hdr = [b"group" if kind == "bars" else b""] + [sn[s] for s in used]
+    return [hdr] + [[k] + [num(r[s]) for s in used] for k, r in named], len(ki)
 
 
 def samples_of(sc):
@@ -344,7 +584,7 @@ def write_layout(rnd, d, lines, layout):
         data = b"\n".join(ls) + (b"\n" if ls and final_nl else b"")
         path = os.path.join(d, name)
         if gz:
-            with gzip.open(path, "wb") as f:
+            with gzip.open(path, "wb", compresslevel=(1 if len(data) > 500000 else 9)) as f:
                 f.write(data)
         else:
             with open(path, "wb") as f:
@@ -372,8 +612,15 @@ def write_layout(rnd, d, lines, layout):
     if layout == "redeal":
         k = 2 + rnd.intn(4)
         buckets = [[] for _ in range(k)]
-        for l in lines:
-            buckets[rnd.intn(k)].append(l)
+        if len(lines) > 20000:          # big corpus: deal runs of lines instead of single lines
+            i = 0
+            while i < len(lines):
+                j = i + 1 + rnd.intn(1 + len(lines) // 40)
+                buckets[rnd.intn(k)] += lines[i:j]
+                i = j
+        else:
+            for l in lines:
+                buckets[rnd.intn(k)].append(l)
         return [put("r%02d.log" % i, c) for i, c in enumerate(buckets)], None, False
     if layout == "gzip":
         return ["-z"] + [put("g%02d.log.gz" % i, c, gz=True) for i, c in enumerate(chunks(1 + rnd.intn(4)))], None, True
@@ -438,6 +685,228 @@ def show(cmd):
     return " ".join(repr(c) if re.search(r"[^\w./=:-]", c) else c for c in cmd[1:])
 
 
+def late_tuning(rnd, n):
+    """big batches and many workers: 5 + workers batches can be counted as read while none of them is sampled yet"""
+    w = rnd.pick([12, 16, 24, 32])
+    batch = rnd.pick([20000, 50000])
+    if (5 + w) * batch < n:
+        batch = 50000
+    return ["--workers", str(w), "--batch", str(batch), "--batch-buffer", str(rnd.pick([2, 18, 40])),
+            "--readers", str(rnd.pick([1, 3, 5]))]
+
+
+def pace_plan(rnd, size):
+    """the SLOW STDIN WRITER: byte offsets (anywhere, also inside a line) after which the writer pauses for more than
+    one render period.  With a final burst (the bulk arrives after the last pause) or trickling out (the last
+    piece is tiny)."""
+    style = rnd.pick(["burst", "trickle", "even"])
+    if style == "burst":
+        cuts = [size // 50 + rnd.intn(size // 10 + 1)]
+        if rnd.intn(2):
+            cuts.append(cuts[0] + size // 4)
+    elif style == "trickle":
+        cuts = [size // 2 + rnd.intn(size // 4 + 1), size - 1 - rnd.intn(min(size, 40))]
+    else:
+        k = 2 + rnd.intn(2)
+        cuts = [size * (i + 1) // (k + 1) for i in range(k)]
+    return style, [(c, rnd.pick([0.12, 0.16, 0.27, 0.33])) for c in sorted(set(max(0, min(size, c)) for c in cuts))]
+
+
+def run_cli_paced(exe, sub, args, data, plan, gmp, mode):
+    """stdin fed in pieces with pauses (a thread writes, the main thread collects the output)"""
+    cmd = [exe, "--nocolor", "--noformat", sub] + args + (["--csv", "-"] if mode == "csv" else ["--snapshot"]) + ["-"]
+    p = subprocess.Popen(cmd, stdin=subprocess.PIPE, stdout=subprocess.PIPE, stderr=subprocess.PIPE, env=dict(os.environ, GOMAXPROCS=gmp))
+
+    def feed():
+        try:
+            pos = 0
+            for cut, pause in plan:
+                p.stdin.write(data[pos:cut])
+                p.stdin.flush()
+                pos = cut
+                time.sleep(pause)
+            p.stdin.write(data[pos:])
+            p.stdin.close()
+        except (BrokenPipeError, ValueError, OSError):
+            pass
+
+    t = threading.Thread(target=feed, daemon=True)
+    t.start()
+    try:
+        out, err = _collect(p, 60)
+    except subprocess.TimeoutExpired:
+        p.kill()
+        t.join(5)
+        raise
+    t.join(5)
+    return p.returncode, out, err, cmd
+
+
+def _collect(p, timeout):
+    """read stdout and stderr to the end without touching stdin (Popen.communicate would close it)"""
+    bufs = {}
+
+    def rd(name, f):
+        bufs[name] = f.read()
+
+    ts = [threading.Thread(target=rd, args=("o", p.stdout), daemon=True), threading.Thread(target=rd, args=("e", p.stderr), daemon=True)]
+    for t in ts:
+        t.start()
+    p.wait(timeout=timeout)
+    for t in ts:
+        t.join(10)
+    return bufs.get("o", b""), bufs.get("e", b"")
+
+
+# ------------------------------------------------------------------ reading a snapshot back
+
+PLAIN = re.compile(rb"[A-Za-z0-9]+\Z")
+SPACES = re.compile(rb" +")
+GOFLOATISH = re.compile(rb"(?i)([0-9]+e[0-9]+|0x[0-9a-f]+(p[0-9]+)?|inf|infinity|nan)\Z")   # strconv.ParseFloat takes more than digits
+FOOTER = re.compile(rb"^Matched: (\d+) / (\d+)(?: \((?:Groups: (\d+)|R: (\d+); C: (\d+))\))?")
+
+
+def squash(out):
+    """F25 (snapshot-layout-memory): the renderers remember the widest cell of EARLIER renders, so the padding of the
+    final frame depends on which intermediate frames happened.  Comparisons of snapshot texts that may have seen a
+    100 ms tick therefore collapse runs of spaces and drop trailing ones; everything else stays significant."""
+    return b"\n".join(SPACES.sub(b" ", l).rstrip(b" ") for l in out.split(b"\n"))
+
+
+def snap_check(sc, snap, rows, nsamples=None, nread=None, cache=None):
+    """compare a (normalized) --snapshot text with an aggregate given as parsed-CSV rows (header + rows): every
+    DISPLAYED number must be the aggregate's number for that key, and the footer must count the aggregate's
+    groups / rows / columns.  Only what is displayed is compared (top -n rows, --rows / --cols truncation).
+    Requires readable(sc, rows).  Returns None or a description of the first difference."""
+    kind = sc.kind
+    ls = [l for l in snap.split(b"\n")]
+    fi = [i for i, l in enumerate(ls) if l.startswith(b"Matched: ")]
+    if not fi:
+        return "no footer line"
+    m = FOOTER.match(ls[fi[-1]])
+    body = ls[:fi[-1]]
+    if nsamples is not None and int(m.group(1)) != nsamples:
+        return "footer shows %s matched lines, expected %d" % (m.group(1).decode(), nsamples)
+    if nread is not None and int(m.group(2)) != nread:
+        return "footer shows %s lines read, expected %d" % (m.group(2).decode(), nread)
+    hdr, data = rows[0], rows[1:]
+
+    def lookup():
+        if cache is None:
+            return dict((r[0], r[1:]) for r in data)
+        if cache.get("rows") is not rows:
+            cache["rows"], cache["d"] = rows, dict((r[0], r[1:]) for r in data)
+        return cache["d"]
+
+    if kind == "histo":
+        if m.group(3) is None or int(m.group(3)) != len(data):
+            return "footer shows Groups: %s, the aggregate has %d" % ((m.group(3) or b"?").decode(), len(data))
+        d = lookup()
+        shown = []
+        for l in body:
+            t = l.split()
+            if not t:
+                continue
+            if len(t) < 2 or t[0] not in d:
+                return "row of an unknown key: %r" % l
+            if d[t[0]] != [t[1]]:
+                return "key %s is shown with %s, the aggregate has %s" % (t[0].decode(), t[1].decode(), d[t[0]][0].decode())
+            shown.append(int(t[1]))
+        if sc.cls == "late":        # `-n N`, default sort by value, no --atleast: the N biggest counts
+            n = int(sc.extra[sc.extra.index("-n") + 1])
+            top = sorted((int(r[1]) for r in data if int(r[1]) >= 0), reverse=True)[:n]
+            if sorted(shown, reverse=True) != top:
+                return "the %d displayed counts %r are not the top counts %r" % (len(shown), sorted(shown, reverse=True)[:8], top[:8])
+        return None
+    if kind == "bars":
+        d = lookup()
+        stacked = "--stacked" in sc.extra
+        cur, got = None, {}
+        for l in body[1:]:
+            t = l.split()
+            if not t:
+                continue
+            if not l.startswith(b" "):
+                cur = t[0]
+                if cur not in d:
+                    return "row of an unknown key: %r" % l
+                got[cur] = []
+            if cur is None or (len(t) < 2 and not l.startswith(b" ")):
+                return "unreadable bar line %r" % l
+            got[cur].append(t[-1])
+        for k, vals in got.items():
+            want = [b"%d" % sum(int(x) for x in d[k])] if stacked else d[k]
+            if vals != want:
+                return "key %s is shown with %r, the aggregate has %r" % (k.decode(), vals, want)
+        if len(got) != len(d):
+            return "%d keys displayed, the aggregate has %d" % (len(got), len(d))
+        return None
+    if kind in ("table", "heatmap", "spark", "reduce"):
+        if m.group(4) is None:
+            return "footer without R/C"
+        ncols = len(hdr) if kind == "reduce" else len(hdr) - 1
+        if int(m.group(4)) != len(data) or int(m.group(5)) != ncols:
+            return "footer shows R: %s; C: %s, the aggregate has %d rows and %d columns" % (m.group(4).decode(), m.group(5).decode(), len(data), ncols)
+        if kind == "heatmap" or not body:
+            return None
+        if kind == "reduce":
+            ng = sc.ngroups
+            if ng != 1:
+                return None
+            d = lookup()
+            if body[0].split() != hdr:
+                return "header %r, expected %r" % (body[0], hdr)
+            for l in body[1:]:
+                t = l.split()
+                if not t or t[0].startswith(b"("):
+                    continue
+                if t[0] not in d:
+                    return "row of an unknown group: %r" % l
+                if t[1:] != d[t[0]]:
+                    return "group %s is shown with %r, the aggregate has %r" % (t[0].decode(), t[1:], d[t[0]])
+            return None
+        d = lookup()
+        cols = hdr[1:]
+        if kind == "spark":
+            # First / Last are the cells of the first / last DISPLAYED column: --sort-cols text as in the CSV, the default
+            # `numeric` puts names that parse as numbers first, by magnitude (sorting.ByNameSmart)
+            fi, la = 0, len(cols) - 1
+            if cols and "--sort-cols" not in sc.extra:
+                if any(GOFLOATISH.match(c) for c in cols):
+                    return None
+                order = sorted(cols, key=lambda c: (0, int(c), c) if c.isdigit() else (1, 0, c))
+                fi, la = cols.index(order[0]), cols.index(order[-1])
+            for l in body[1:]:
+                t = l.split()
+                if not t or t[0].startswith(b"("):
+                    continue
+                if t[0] not in d or len(t) < 3:
+                    return "row of an unknown key: %r" % l
+                if cols and (t[1], t[-1]) != (d[t[0]][fi], d[t[0]][la]):
+                    return "row %s is shown with First %s Last %s, the aggregate has %s and %s" % (t[0].decode(), t[1].decode(), t[-1].decode(),
+                                                                                                   d[t[0]][fi].decode(), d[t[0]][la].decode())
+            return None
+        extra = "-x" in sc.extra
+        shown_cols = body[0].split()
+        if extra and shown_cols and shown_cols[-1] == b"Total":
+            shown_cols = shown_cols[:-1]
+        if any(c not in cols for c in shown_cols):
+            return "header with an unknown column: %r" % body[0]
+        idx = [cols.index(c) for c in shown_cols]
+        for l in body[1:]:
+            t = l.split()
+            if not t or (extra and t[0] == b"Total") or t[0].startswith(b"("):
+                continue
+            if t[0] not in d:
+                return "row of an unknown key: %r" % l
+            vals = t[1:1 + len(idx)]
+            want = [d[t[0]][i] for i in idx]
+            if vals != want:
+                return "row %s is shown with %r for the columns %r, the aggregate has %r" % (t[0].decode(), vals, shown_cols, want)
+        return None
+    return None
+
+
 # ------------------------------------------------------------------ the timing-controlled spark run (F24)
 
 def spark_timing(exe):
@@ -473,7 +942,45 @@ def reduce_regressions(exe, work):
     return outs, b"k,n\n,1\na,1\nb,1\nc,1\nd,1\ne,1\nf,1\n", cmd
 
 
+def layout_memory_timing(exe):
+    """F25 (snapshot-layout-memory): the table renderer keeps the widest cell it has ever drawn, so the PADDING of the
+    final frame depends on which intermediate frames were rendered.  Two lines into `reduce -a last={1}`: once in
+    one go, once with a pause after the first (long) value so that a periodic render draws it.  Returns
+    (all_at_once, with_pause, cmd); the two differ in runs of spaces only (checked by the caller)."""
+    a, b = b"aaaaaaaaaaaaaaaa k\n", b"b k\n"
+    cmd = [exe, "--nocolor", "--noformat", "reduce", "-m", r"(\w+) (\w+)", "-g", "g={2}", "-a", "last={1}", "--workers", "1", "--readers", "1",
+           "--batch", "1", "--snapshot"]
+    fast = subprocess.run(cmd, input=a + b, stdout=subprocess.PIPE, stderr=subprocess.PIPE, timeout=60).stdout
+    p = subprocess.Popen(cmd, stdin=subprocess.PIPE, stdout=subprocess.PIPE, stderr=subprocess.PIPE)
+    p.stdin.write(a)
+    p.stdin.flush()
+    time.sleep(0.6)
+    p.stdin.write(b)
+    p.stdin.close()
+    slow = p.stdout.read()
+    p.wait(timeout=60)
+    return norm_snapshot(fast), norm_snapshot(slow), cmd
+
+
 # ------------------------------------------------------------------ main
+
+NUMCELL = re.compile(rb"-?[0-9]+\Z")
+
+
+def readable(sc, rows):
+    """can the snapshot of this aggregate be read back token by token?  (plain alphanumeric names, integer cells)"""
+    if rows is None or sc.kind == "analyze" or (sc.kind == "reduce" and (sc.ordered or sc.ngroups != 1)):
+        return False
+    nk = sc.ngroups if sc.kind == "reduce" else 1
+    for r in rows[1:]:
+        if not all(PLAIN.match(c) for c in r[:nk]) or not all(NUMCELL.match(c) for c in r[nk:]):
+            return False
+        if nk and r[0] in (b"Matched", b"Total"):
+            return False
+    if sc.kind in ("table", "heatmap", "spark", "bars"):
+        return all(PLAIN.match(c) and c != b"Total" for c in rows[0][1:])
+    return True
+
 
 def run_extra(ctx):
     rnd = Rand(ctx["seed"] * 1000003 + 3)
@@ -484,19 +991,30 @@ def run_extra(ctx):
     kinds = ["histo", "table", "heatmap", "spark", "bars", "analyze", "reduce"]
     nscen = 70 if not thorough else 700
     nconf = 5 if not thorough else 9
+    nphase = 16 if not thorough else 140
     layouts = ["split", "shuffle", "redeal", "gzip", "stdin", "glob", "one"]
-    violations, runs, stats = [], 0, {}
+    ncpu = str(max(2, os.cpu_count() or 2))
+    KNOWN = ("spark-value-trim-timing", "snapshot-layout-memory")
+    violations, stats, secs = [], {}, {}
+    nruns = [0]
 
     def bump(k, n=1):
         stats[k] = stats.get(k, 0) + n
 
     def viol(key, **kw):
-        if len(violations) < 6:
+        bump("violation." + key)
+        if "scenario_class" in kw:
+            bump("violation.%s.%s" % (key, kw["scenario_class"]))
+        if key in KNOWN or sum(1 for v in violations if v["key"] not in KNOWN) < 6:
             violations.append(dict(kw, key=key))
 
-    for si in range(nscen):
-        kind = kinds[si % len(kinds)]
-        sc = make_scenario(rnd, kind)
+    def text(b, n=500):
+        return b.decode("utf8", "replace")[:n]
+
+    # ---------------------------------------------------------------- small scenarios (random and phased corpora)
+    def check_scenario(sc):
+        kind = sc.kind
+        sviol = lambda key, **kw: viol(key, scenario_class=sc.cls, **kw)
         samples, nread, nign = samples_of(sc)
         bump("scenario." + kind)
         bump("lines", len(sc.lines))
@@ -507,12 +1025,34 @@ def run_extra(ctx):
             bump("scenario.keyWithQuoteOrComma")
         args = base_args(sc)
         sub = SUB[kind]
+        inp = repr(b"\n".join(sc.lines))[:2500]
         # ---- expectations
         if kind == "analyze":
             vals, errs = py_analyze(sc, samples)
             want_rows = None
         else:
             want_rows, errs = py_rows(sc, samples)
+        can_read = readable(sc, want_rows)
+        if can_read:
+            bump("scenario.snapshotReadable")
+        if kind in ("bars", "table", "heatmap", "spark"):
+            # the shape of class (b): some key is sampled for the last time before a later sub-key / column shows up
+            last_of, first_of = {}, {}
+            for i, s in enumerate(samples):
+                (a, b), inc = split_sample(s, NUL, 2)
+                if inc is not None:
+                    last_of[a] = i
+                    first_of.setdefault(b, i)
+                    if kind != "bars":
+                        last_of[(1, b)] = i
+                        first_of.setdefault((1, a), i)
+            newest = max([v for k, v in first_of.items() if not isinstance(k, tuple)], default=-1)
+            newest2 = max([v for k, v in first_of.items() if isinstance(k, tuple)], default=-1)
+            if any(v < newest for k, v in last_of.items() if not isinstance(k, tuple)) or \
+               any(v < newest2 for k, v in last_of.items() if isinstance(k, tuple)):
+                bump("scenario.keyStopsBeforeNewSubkey")
+                bump("scenario.keyStopsBeforeNewSubkey." + kind)
+                bump(sc.cls + ".keyStopsBeforeNewSubkey")
         ans = drv.ask("exit 0 0 %d %d" % (errs, len(samples)))
         want_rc = int(ans.split()[1]) if ans.startswith("ok ") else -1
         model_csv = None
@@ -530,11 +1070,12 @@ def run_extra(ctx):
             ans = None
         if ans is not None:
             if not ans.startswith("ok "):
-                viol("e2e-driver", case=ans)
+                sviol("e2e-driver", case=ans)
             else:
                 model_csv = bytes.fromhex(ans.split()[1]) if ans.split()[1] != "-" else b""
         # ---- configurations
         base = {}
+        csv_rows = None
         confs = [("one", True)] + [(rnd.pick(layouts), False) for _ in range(nconf)]
         for ci, (layout, plain) in enumerate(confs):
             files, stdin, sequential = write_layout(rnd, work, sc.lines, layout)
@@ -545,6 +1086,8 @@ def run_extra(ctx):
                     continue
                 tune = ["--workers", "1", "--readers", "1", "--batch", str(rnd.pick([1, 3, 1000])), "--batch-buffer", str(rnd.pick([1, 18]))]
             bump("layout." + layout)
+            bump(sc.cls + ".layout." + layout)
+            bump(sc.cls + ".gomaxprocs." + gmp)
             modes = ["csv", "snap"] if kind != "analyze" else ["snap"]
             if kind == "heatmap" and any(split_sample(x, NUL, 2)[0][0] == b"" for x in samples):
                 modes = ["csv"]     # F21(b), property C14: the heatmap renderer never returns on an empty column key
@@ -553,56 +1096,256 @@ def run_extra(ctx):
                 try:
                     rc, out, err, cmd = run_cli(exe, sub, args + tune, files, stdin, gmp, mode)
                 except subprocess.TimeoutExpired:
-                    viol("e2e-hang", cmd=show([exe, sub] + args + tune + files), layout=layout)
+                    sviol("e2e-hang", cmd=show([exe, sub] + args + tune + files), layout=layout, input=inp)
                     continue
-                runs += 1
+                nruns[0] += 1
+                bump(sc.cls + ".runs")
                 if mode == "snap":
                     out = norm_snapshot(out)
                 if rc != want_rc:
-                    viol("e2e-exit-status", cmd=show(cmd), layout=layout, rc=rc, model_rc=want_rc, stderr=err.decode("utf8", "replace")[-300:],
+                    sviol("e2e-exit-status", cmd=show(cmd), layout=layout, rc=rc, model_rc=want_rc, stderr=err.decode("utf8", "replace")[-300:], input=inp,
                          explanation="exit status differs from DetermineErrorState on the sequential reference")
+                if mode == "snap" and can_read:
+                    why = snap_check(sc, out, want_rows, len(samples), nread)
+                    bump("snapshot.comparedWithReference")
+                    if why is not None:
+                        sviol("e2e-snapshot-vs-reference", cmd=show(cmd), gomaxprocs=gmp, layout=layout, why=why, snapshot=text(out), input=inp,
+                             explanation="a number displayed in the final --snapshot frame is not the sequential reference aggregation's number")
+                    if csv_rows is not None and csv_rows != want_rows and readable(sc, csv_rows):
+                        why = snap_check(sc, out, csv_rows)
+                        if why is not None:
+                            sviol("e2e-snapshot-vs-csv", cmd=show(cmd), gomaxprocs=gmp, layout=layout, why=why, snapshot=text(out), input=inp,
+                                 explanation="the final --snapshot frame and the --csv export of the same command line describe different aggregates")
                 if mode not in base:
                     base[mode] = (rc, out, show(cmd))
                     if mode == "csv" and model_csv is not None:
                         if out != model_csv:
-                            viol("e2e-csv-vs-model", cmd=show(cmd), cli=out.decode("utf8", "replace")[:600], model=model_csv.decode("utf8", "replace")[:600],
+                            sviol("e2e-csv-vs-model", cmd=show(cmd), cli=out.decode("utf8", "replace")[:600], model=model_csv.decode("utf8", "replace")[:600], input=inp,
                                  explanation="CSV text differs from the model's sequential reference")
                         pans = drv.ask("parse " + hx(out))
-                        if want_rows is not None and (not pans.startswith("ok ") or dec_rows(pans[3:]) != want_rows):
-                            viol("e2e-csv-reparse", cmd=show(cmd), parsed=pans[:600], expected=enc_rows(want_rows)[:600],
+                        if pans.startswith("ok "):
+                            csv_rows = dec_rows(pans[3:])
+                        if want_rows is not None and (not pans.startswith("ok ") or csv_rows != want_rows):
+                            sviol("e2e-csv-reparse", cmd=show(cmd), parsed=pans[:600], expected=enc_rows(want_rows)[:600], input=inp,
                                  explanation="the CSV export, re-read by the RFC 4180 reader, is not the reference aggregation")
                         bump("csv.comparedWithModel")
                     if kind == "analyze" and vals:
                         m = re.search(rb"Samples:\s+(\d+)\nMean:\s+(\S+)", out)
                         mean = sum(vals) / len(vals)
                         if not m or int(m.group(1)) != len(vals) or abs(float(m.group(2)) - mean) > 1e-3 * max(1, abs(mean)):
-                            viol("e2e-analyze-vs-reference", cmd=show(cmd), out=out.decode("utf8", "replace")[:300], n=len(vals), mean=mean)
+                            sviol("e2e-analyze-vs-reference", cmd=show(cmd), out=out.decode("utf8", "replace")[:300], n=len(vals), mean=mean)
                         bump("analyze.comparedWithReference")
                 else:
                     brc, bout, bcmd = base[mode]
                     same = (out == bout) if kind != "analyze" else analyze_close(out, bout)
+                    if not same and mode == "snap" and kind != "analyze" and squash(out) == squash(bout):
+                        same = True     # F25: padding only (a render tick happened in one of the two runs)
+                        bump("snapshot.paddingOnlyDifference")
                     if rc != brc or not same:
-                        viol("e2e-config-dependence", mode=mode, cmd_a=bcmd, cmd_b=show(cmd), layout=layout, rc_a=brc, rc_b=rc,
+                        sviol("e2e-config-dependence", mode=mode, cmd_a=bcmd, cmd_b=show(cmd), layout=layout, rc_a=brc, rc_b=rc, input=inp,
                              out_a=bout.decode("utf8", "replace")[:500], out_b=out.decode("utf8", "replace")[:500],
                              explanation="same lines, same command line, different tuning/layout: the result differs")
                     bump("compared.acrossConfigs")
+
+    # ---------------------------------------------------------------- late sampling (big corpora, render ticks mid-run)
+    def check_late(sc, reps):
+        kind, sub, args, n = sc.kind, SUB[sc.kind], base_args(sc), len(sc.lines)
+        want_rows, nsamp = late_reference(sc)
+        can_read = readable(sc, want_rows)
+        cache = {}
+        bump("late.scenarios")
+        bump("late.scenario." + kind)
+        bump("late.lines", n)
+        if want_rows is not None:
+            bump("late.groups", len(want_rows) - 1)
+        mean = sum(sc.triples[2]) / float(n)
+        ans = drv.ask("exit 0 0 0 %d" % nsamp)
+        want_rc = int(ans.split()[1]) if ans.startswith("ok ") else -1
+        confs = [("one", True, ncpu, reps[0]),
+                 (rnd.pick(layouts[:6]), True, rnd.pick(["1", "2", ncpu] if thorough else ["2", "4", ncpu]), reps[1]),
+                 ("paced", True, rnd.pick(["1", "4", ncpu]), reps[2]),
+                 (rnd.pick(layouts[:6]), False, None, 1)]
+        base = {}
+        for layout, late, gmp, nrep in confs:
+            plan, style, data = None, None, None
+            if layout == "paced":
+                data = b"\n".join(sc.lines) + b"\n"
+                style, plan = pace_plan(rnd, len(data))
+                files, stdin = ["-"], None
+                bump("late.paced." + style)
+            else:
+                files, stdin, _ = write_layout(rnd, work, sc.lines, layout)
+            if late:
+                tune = late_tuning(rnd, n)
+            elif thorough:
+                tune, gmp = tuning(rnd, False)
+            else:                       # quick: ordinary tuning without the settings that take seconds on a big corpus (--batch 1, GOMAXPROCS 1)
+                tune = ["--workers", str(rnd.pick([1, 2, 3, 8])), "--batch", str(rnd.pick([250, 1000, 4000])),
+                        "--batch-buffer", str(rnd.pick([1, 2, 18])), "--readers", str(rnd.pick([1, 2, 5]))]
+                gmp = rnd.pick(["2", "4", ncpu])
+            bump("late.layout." + layout)
+            bump("late.gomaxprocs." + gmp)
+            where = dict(layout=layout, gomaxprocs=gmp, input_recipe=sc.recipe, scenario_class="late")
+            if plan is not None:
+                where["stdin_pauses"] = "write up to byte offset, then sleep: " + ", ".join("%d: %.2fs" % c for c in plan)
+
+            def once(mode):
+                t0 = time.time()
+                try:
+                    if plan is not None:
+                        r = run_cli_paced(exe, sub, args + tune, data, plan, gmp, mode)
+                    else:
+                        r = run_cli(exe, sub, args + tune, files, stdin, gmp, mode)
+                except subprocess.TimeoutExpired:
+                    viol("e2e-hang", cmd=show([exe, sub] + args + tune + files), **where)
+                    return None
+                nruns[0] += 1
+                bump("late.runs")
+                dt = time.time() - t0
+                if dt > 0.15:
+                    bump("late.runsOver150ms")
+                for k in ("late.seconds." + kind, "late.seconds.gomaxprocs." + gmp, "late.seconds.layout." + layout):
+                    secs[k] = secs.get(k, 0.0) + dt
+                if r[0] != want_rc:
+                    viol("e2e-exit-status", cmd=show(r[3]), rc=r[0], model_rc=want_rc, stderr=r[2].decode("utf8", "replace")[-300:],
+                         explanation="exit status differs from DetermineErrorState on the sequential reference", **where)
+                return r
+
+            # ---- the CSV export of this command line
+            csv_rows, have_csv = want_rows, False
+            if kind != "analyze" and (thorough or (late and layout != "paced")):
+                r = once("csv")
+                if r is not None:
+                    rc, out, err, cmd = r
+                    have_csv = True
+                    csv_rows = [l.split(b",") for l in out.split(b"\n")[:-1]]
+                    bump("late.csvVsReference")
+                    if csv_rows != want_rows:
+                        diff = next((i for i, (x, y) in enumerate(zip(csv_rows, want_rows)) if x != y), min(len(csv_rows), len(want_rows)))
+                        viol("e2e-csv-vs-reference", cmd=show(cmd), rows_cli=len(csv_rows), rows_reference=len(want_rows), first_difference_at_row=diff,
+                             cli=repr(csv_rows[diff:diff + 3]), reference=repr(want_rows[diff:diff + 3]),
+                             explanation="the CSV export is not the independent sequential aggregation of the input", **where)
+                    if "csv" not in base:
+                        base["csv"] = (out, show(cmd))
+                    elif out != base["csv"][0]:
+                        viol("e2e-config-dependence", mode="csv", cmd_a=base["csv"][1], cmd_b=show(cmd),
+                             explanation="same lines, same command line, different tuning/layout: the CSV differs", **where)
+            # ---- the final frame, several times (the schedule differs from run to run)
+            for rep in range(nrep):
+                r = once("snap")
+                if r is None:
+                    continue
+                rc, out, err, cmd = r
+                out = norm_snapshot(out)
+                bump("late.snapshots")
+                stale = False
+                if kind == "analyze":
+                    m = re.search(rb"Samples:\s+(\d+)\nMean:\s+(\S+)", out)
+                    bump("late.snapshotVsReference")
+                    if not m or int(m.group(1)) != nsamp or abs(float(m.group(2)) - mean) > 1e-3 * max(1, abs(mean)):
+                        stale = True
+                        viol("e2e-analyze-vs-reference", cmd=show(cmd), out=text(out, 300), n=nsamp, mean=mean, **where)
+                elif can_read:
+                    why_ref = snap_check(sc, out, want_rows, nsamp, n, cache)
+                    why_csv = why_ref if csv_rows == want_rows else (snap_check(sc, out, csv_rows) if readable(sc, csv_rows) else None)
+                    bump("late.snapshotVsReference")
+                    if have_csv:
+                        bump("late.snapshotVsCsv")
+                    if why_csv is not None and have_csv:
+                        stale = True
+                        viol("e2e-snapshot-vs-csv", cmd=show(cmd), why=why_csv, snapshot=text(out, 700), csv_equals_reference=(csv_rows == want_rows),
+                             csv_head=repr(csv_rows[:4]), run="%d of %d with this command line" % (rep + 1, nrep),
+                             explanation="the final --snapshot frame and the --csv export of the same command line and input describe different aggregates "
+                                         "(every displayed row is looked up in the CSV; the footer's group / row / column counts against the CSV's)", **where)
+                    elif why_ref is not None:       # (no CSV run for this configuration in the quick tier, or the CSV itself is off)
+                        stale = True
+                        viol("e2e-snapshot-vs-reference", cmd=show(cmd), why=why_ref, snapshot=text(out, 700), run="%d of %d with this command line" % (rep + 1, nrep),
+                             explanation="a number displayed in the final --snapshot frame is not the sequential reference aggregation's number", **where)
+                if stale:
+                    bump("late.snapshotWrong")
+                    bump("late.snapshotWrong." + kind)
+                    bump("late.snapshotWrong.layout." + layout)
+                sq = squash(out)
+                if "snap" not in base:
+                    base["snap"] = (sq, show(cmd), out)
+                else:
+                    same = (sq == base["snap"][0]) if kind != "analyze" else analyze_close(sq, base["snap"][0])
+                    if out != base["snap"][2] and same:
+                        bump("snapshot.paddingOnlyDifference")
+                    bump("late.snapshotVsSnapshot")
+                    if not same:
+                        bump("late.snapshotDiffers")
+                        viol("e2e-config-dependence" if show(cmd) != base["snap"][1] else "e2e-snapshot-nondeterministic", mode="snap",
+                             cmd_a=base["snap"][1], cmd_b=show(cmd), out_a=text(base["snap"][0]), out_b=text(sq),
+                             explanation="same lines, same aggregation: the final --snapshot frame differs between two runs (compared with runs of spaces collapsed)", **where)
+
+    # ---- class (b): phased corpora
+    pk = ["bars", "table", "spark", "heatmap"]
+    for si in range(nphase):
+        sc = make_phase_scenario(rnd, pk[si % len(pk)])
+        bump("phase.scenarios")
+        bump("phase.scenario." + sc.kind)
+        check_scenario(sc)
+    # ---- class (a): late sampling
+    t_late = time.time()
+    lk = ["table", "reduce", "spark", "bars", "histo", "heatmap", "analyze"]
+    if not thorough:
+        late_plan = [(k, LATE_SIZES[k][0][0], (2, 1, 1)) for k in lk]
+    else:
+        late_plan = [(k, sz, (3, 2, 1) if i == 0 else (2, 1, 1)) for k in lk for i, sz in enumerate(LATE_SIZES[k][1])]
+    # the fast reference of the late scenarios against the general one (samples_of + py_rows), on small corpora of the same shape
+    for kind in (lk[:6] if thorough else [rnd.pick(lk[:6]), rnd.pick(lk[:6])]):
+        sc = make_late_scenario(rnd, kind, (20000 + rnd.intn(20000), 3000))
+        samples, nread, _ = samples_of(sc)
+        slow_rows, errs = py_rows(sc, samples)
+        bump("late.referenceCrossChecked")
+        fast_rows = late_reference(sc)[0]
+        if kind == "reduce":                            # the extra accumulators repeat the first three
+            fast_rows = [r[:4] for r in fast_rows]
+        if slow_rows != fast_rows or errs or nread != len(sc.lines):
+            viol("e2e-late-reference-selfcheck", kind=kind, input_recipe=sc.recipe)
+    for kind, size, reps in late_plan:
+        sc = make_late_scenario(rnd, kind, size)
+        check_late(sc, reps)
+        sc.lines = sc.triples = None
+    stats["late.seconds"] = round(time.time() - t_late, 1)
+    for k, v in secs.items():
+        stats[k] = round(v, 1)
+    # ---- random corpora
+    for si in range(nscen):
+        kind = kinds[si % len(kinds)]
+        sc = make_scenario(rnd, kind)
+        sc.cls = "random"
+        check_scenario(sc)
     # ---- timing-controlled spark truncation (F24)
-    known = []
     fast, slow, cmd = spark_timing(exe)
-    runs += 2
+    nruns[0] += 2
     if fast != slow:
         viol("spark-value-trim-timing", cmd=show(cmd), all_at_once=fast.decode(), with_pause=slow.decode(),
              explanation="spark with a value-ordered column sort trims columns inside intermediate renders, so the exported table depends on render timing")
+    # ---- timing-controlled padding of the final frame (F25)
+    fast, slow, cmd = layout_memory_timing(exe)
+    nruns[0] += 2
+    if fast != slow:
+        if squash(fast) == squash(slow):
+            viol("snapshot-layout-memory", cmd=show(cmd), all_at_once=fast.decode("utf8", "replace"), with_pause=slow.decode("utf8", "replace"),
+                 explanation="the table renderer keeps the widest cell of earlier (intermediate) renders, so the padding of the final --snapshot frame depends on "
+                             "render timing; the two texts are equal once runs of spaces are collapsed")
+        else:
+            viol("e2e-config-dependence", mode="snap", cmd_a=show(cmd), cmd_b=show(cmd) + "  (0.6 s pause after the first line)", out_a=text(fast), out_b=text(slow),
+                 explanation="same lines, same command line, paced stdin: the final frame differs in more than padding")
     outs, want, cmd = reduce_regressions(exe, work)
-    runs += 8
+    nruns[0] += 8
     if outs != {want}:
         viol("reduce-sort-ties-empty-group", cmd=show(cmd), outputs=[o.decode("utf8", "replace") for o in sorted(outs)], expected=want.decode(),
              explanation="reduce --sort with equal sort keys / the empty group key: the CSV is not the deterministic reference")
     drv.close()
     shutil.rmtree(work, ignore_errors=True)
-    return {"runs": runs, "violations": violations, "distribution": stats,
+    return {"runs": nruns[0], "violations": violations, "distribution": stats,
             "assumptions": ["e2e: the real CLI built from /repo is executed on generated files; the OS schedule is whatever happened on these runs",
-                            "e2e reference: the extracted keys are computed by a small Python evaluator for the generated templates ({n}, literals, escapes); regex/dissect matching is replaced by splitting at the first two `|`"]}
+                            "e2e reference: the extracted keys are computed by a small Python evaluator for the generated templates ({n}, literals, escapes); regex/dissect matching is replaced by splitting at the first two `|`",
+                            "e2e snapshot read-back: only scenarios whose keys are plain alphanumeric tokens; only the displayed rows / columns and the footer counts are compared; snapshot texts are compared with runs of spaces collapsed wherever a render tick may have happened (F25)",
+                            "e2e late sampling: whether a render tick falls between 'last line read' and 'last batch sampled' is up to the OS schedule; every such command line is run several times"]}
 
 
 def run(*a, **k):  # the check's entry point is run(ctx); otherwise behave like common.run
